@@ -6,7 +6,7 @@ package engine
 // Contracts for package engine (consumed by /verif/govc; comment-only file).
 
 //@ func (*Gengine).addResult
-//@   props C11 C09 C19
+//@   props C11 C09 C19 C07
 //@   requires g != nil && g.returnResult != nil
 //@   requires !held(g.lock)
 //@   modifies mapcontents(g.returnResult)
@@ -16,7 +16,7 @@ package engine
 //@   nopanic
 
 //@ func (*Gengine).Execute
-//@   props C04 C11 C09
+//@   props C04 C11 C09 C07
 //@   alsoprops C06
 //@   entry nolocks
 //@   requires g != nil
@@ -31,7 +31,7 @@ package engine
 //@   use seqloop(0, S, b)
 
 //@ func (*Gengine).ExecuteWithStopTagDirect
-//@   props C04 C11 C09 C14
+//@   props C04 C11 C09 C14 C07
 //@   alsoprops C06
 //@   entry nolocks
 //@   requires g != nil && sTag != nil
@@ -49,7 +49,7 @@ package engine
 //@   use lesscontract(C04 C12)
 
 //@ func (*Gengine).ExecuteSelectedRules
-//@   props C04 C11 C09 C12
+//@   props C04 C11 C09 C12 C07
 //@   alsoprops C06
 //@   entry nolocks
 //@   requires g != nil
@@ -71,7 +71,7 @@ package engine
 //@   use ruletask(wg, C05 C09 C11)
 
 //@ func (*Gengine).ExecuteConcurrent
-//@   props C05 C09 C11
+//@   props C05 C09 C11 C07
 //@   alsoprops C06
 //@   entry nolocks
 //@   requires g != nil
@@ -101,7 +101,7 @@ package engine
 //@   use ruletask(wg, C05 C09 C11)
 
 //@ func (*Gengine).ExecuteMixModel
-//@   props C05 C11 C09
+//@   props C05 C11 C09 C07
 //@   alsoprops C06
 //@   entry nolocks
 //@   requires g != nil
@@ -123,7 +123,7 @@ package engine
 //@   use ruletask(wg, C05 C09 C11 C14)
 
 //@ func (*Gengine).ExecuteMixModelWithStopTagDirect
-//@   props C05 C11 C09 C14
+//@   props C05 C11 C09 C14 C07
 //@   alsoprops C06
 //@   entry nolocks
 //@   requires g != nil && sTag != nil
@@ -149,7 +149,7 @@ package engine
 //@   use ruletask(wg, C05 C09 C11)
 
 //@ func (*Gengine).ExecuteInverseMixModel
-//@   props C05 C11 C09
+//@   props C05 C11 C09 C07
 //@   alsoprops C06
 //@   entry nolocks
 //@   requires g != nil
@@ -181,7 +181,7 @@ package engine
 //@   use lesscontract(C04 C12)
 
 //@ func (*Gengine).ExecuteSelectedRulesWithControl
-//@   props C04 C11 C09 C12
+//@   props C04 C11 C09 C12 C07
 //@   alsoprops C06
 //@   entry nolocks
 //@   requires g != nil
@@ -200,7 +200,7 @@ package engine
 //@   loop 1 invariant [C04] sorted: sortedDesc(rules)
 
 //@ func (*Gengine).ExecuteSelectedRulesWithControlAsGivenSortedName
-//@   props C11 C09 C12
+//@   props C11 C09 C12 C07
 //@   alsoprops C06
 //@   entry nolocks
 //@   requires g != nil
@@ -222,7 +222,7 @@ package engine
 //@   use lesscontract(C04 C12)
 
 //@ func (*Gengine).ExecuteSelectedRulesWithControlAndStopTag
-//@   props C04 C11 C09 C12 C14
+//@   props C04 C11 C09 C12 C14 C07
 //@   alsoprops C06
 //@   entry nolocks
 //@   requires g != nil && sTag != nil
@@ -241,7 +241,7 @@ package engine
 //@   loop 1 invariant [C04] sorted: sortedDesc(rules)
 
 //@ func (*Gengine).ExecuteSelectedRulesWithControlAndStopTagAsGivenSortedName
-//@   props C11 C09 C12 C14
+//@   props C11 C09 C12 C14 C07
 //@   alsoprops C06
 //@   entry nolocks
 //@   requires g != nil && sTag != nil
@@ -266,7 +266,7 @@ package engine
 //@   use ruletask(wg, C05 C09 C11 C12)
 
 //@ func (*Gengine).ExecuteSelectedRulesConcurrent
-//@   props C11 C09 C12
+//@   props C11 C09 C12 C07
 //@   alsoprops C06
 //@   entry nolocks
 //@   requires g != nil
@@ -296,7 +296,7 @@ package engine
 //@   use ruletask(wg, C05 C09 C11 C12)
 
 //@ func (*Gengine).ExecuteSelectedRulesMixModel
-//@   props C05 C11 C09 C12
+//@   props C05 C11 C09 C12 C07
 //@   alsoprops C06
 //@   entry nolocks
 //@   requires g != nil
@@ -331,7 +331,7 @@ package engine
 //@   use ruletask(wg, C05 C09 C11 C12)
 
 //@ func (*Gengine).ExecuteSelectedRulesInverseMixModel
-//@   props C05 C11 C09 C12
+//@   props C05 C11 C09 C12 C07
 //@   alsoprops C06
 //@   entry nolocks
 //@   requires g != nil
@@ -369,7 +369,7 @@ package engine
 //@   use ruletask(wg, C05 C09 C11)
 
 //@ func (*Gengine).ExecuteNSortMConcurrent
-//@   props C05 C11 C09
+//@   props C05 C11 C09 C07
 //@   alsoprops C06
 //@   entry nolocks
 //@   requires g != nil && nSort <= 1000000000 && mConcurrent <= 1000000000
@@ -397,7 +397,7 @@ package engine
 //@   use ruletask(wg, C05 C09 C11)
 
 //@ func (*Gengine).ExecuteNConcurrentMSort
-//@   props C05 C11 C09
+//@   props C05 C11 C09 C07
 //@   alsoprops C06
 //@   entry nolocks
 //@   requires g != nil && nConcurrent <= 1000000000 && mSort <= 1000000000
@@ -430,7 +430,7 @@ package engine
 //@   use ruletask(mwg, C05 C09 C11)
 
 //@ func (*Gengine).ExecuteNConcurrentMConcurrent
-//@   props C05 C11 C09
+//@   props C05 C11 C09 C07
 //@   alsoprops C06
 //@   entry nolocks
 //@   requires g != nil && nConcurrent <= 1000000000 && mConcurrent <= 1000000000
@@ -466,7 +466,7 @@ package engine
 //@   use ruletask(wg, C05 C09 C11 C12)
 
 //@ func (*Gengine).ExecuteSelectedNSortMConcurrent
-//@   props C05 C11 C09 C12
+//@   props C05 C11 C09 C12 C07
 //@   alsoprops C06
 //@   entry nolocks
 //@   requires g != nil && nSort <= 1000000000 && mConcurrent <= 1000000000
@@ -506,7 +506,7 @@ package engine
 //@   use ruletask(wg, C05 C09 C11 C12)
 
 //@ func (*Gengine).ExecuteSelectedNConcurrentMSort
-//@   props C05 C11 C09 C12
+//@   props C05 C11 C09 C12 C07
 //@   alsoprops C06
 //@   entry nolocks
 //@   requires g != nil && nConcurrent <= 1000000000 && mSort <= 1000000000
@@ -549,7 +549,7 @@ package engine
 //@   use ruletask(mwg, C05 C09 C11 C12)
 
 //@ func (*Gengine).ExecuteSelectedNConcurrentMConcurrent
-//@   props C05 C11 C09 C12
+//@   props C05 C11 C09 C12 C07
 //@   alsoprops C06
 //@   entry nolocks
 //@   requires g != nil && nConcurrent <= 1000000000 && mConcurrent <= 1000000000
@@ -588,7 +588,7 @@ package engine
 //@   use ruletask(mwg, C13 C09 C11)
 
 //@ func (*Gengine).ExecuteDAGModel
-//@   props C13 C11 C09
+//@   props C13 C11 C09 C07
 //@   alsoprops C06
 //@   entry nolocks
 //@   requires g != nil
